@@ -253,6 +253,24 @@ Section Insert.
       eapply wfn_in_vals_elements; eassumption.
   Qed.
 
+  (* the same in terms of split_child alone *)
+  Lemma split_child_correct : forall h vs cs i,
+    kids_ok L I (S h) (Inode vs cs) -> i <= length vs -> is_full L I (nth i cs dnode) = true ->
+    let n' := split_child dflt L I (Inode vs cs) i in
+    elements n' = elements (Inode vs cs) /\ kids_ok L I (S h) n' /\
+    n_vals n' = S (length vs) /\ is_leaf n' = false /\ height n' = S h.
+  Proof.
+    intros h vs cs i Hk Hi Efull n'. unfold n'.
+    assert (Hfull : n_vals (nth i cs dnode) = max_vals L I (nth i cs dnode))
+      by (unfold is_full in Efull; apply Nat.eqb_eq in Efull; exact Efull).
+    destruct (split_node dflt L I (nth i cs dnode)) as [[l m] r] eqn:Esp.
+    pose proof (split_child_spec h vs cs i l m r Hk Hi Hfull Esp) as Hs. cbv zeta in Hs.
+    destruct Hs as (Hsc & Hel & Hk1 & _). rewrite Hsc.
+    split; [assumption|]. split; [assumption|]. split; [|split; [reflexivity|]].
+    - unfold n_vals. cbn [vals]. apply length_ainsert. lia.
+    - apply (kids_ok_height _ rank dflt L I HI HI3). assumption.
+  Qed.
+
   (* ------------------------------------------------------------------ zix_btree_insert: the descent *)
   (* what a status says about the listing before and after *)
   Definition ins_rel (e : elt) (st : status) (old new : list elt) : Prop :=
@@ -470,6 +488,22 @@ Section Insert.
                          (asc_child _ rank dflt vs cs i Hl Hi Ha)) as Hp.
           destruct (insert_down rank dflt L I f o (nth i cs dnode) e) as [[[st c'] o2] lg2].
           apply descend; auto; lia.
+  Qed.
+
+  (* what post_ok says in plain words *)
+  Lemma post_ok_status : forall f e n o st n' o' lg, post_ok f e n o (st, n', o', lg) ->
+    (st = SUCCESS \/ st = EXISTS \/ st = NO_MEM) /\
+    (st <> NO_MEM -> (st = EXISTS <-> exists x, In x (elements n) /\ rank x = rank e)) /\
+    elements n' = (match st with SUCCESS => ins_sorted rank e (elements n) | _ => elements n end) /\
+    height n' = f.
+  Proof.
+    intros f e n o st n' o' lg (Hk & _ & _ & Hrel & _).
+    pose proof (kids_ok_height _ rank dflt L I HI HI3 _ _ Hk) as Hh.
+    destruct st; cbn [ins_rel] in Hrel; try contradiction.
+    - destruct Hrel as [Hne ->]. split; [auto|]. split; [|auto]. intros _. split; [discriminate|].
+      intros [x [Hx Ex]]. exfalso. apply (Hne x); assumption.
+    - split; [auto|]. split; [|auto]. intros H. contradiction.
+    - destruct Hrel as [Hex ->]. split; [auto|]. split; [|auto]. intros _. split; auto.
   Qed.
 
   (* ------------------------------------------------------------------ zix_btree_grow_up *)
